@@ -208,6 +208,13 @@ func runC05(t *mon.T, raw json.RawMessage) {
 	for _, b := range content.Blocks {
 		m.Put(b)
 	}
+	// "any writing session" includes one that was interrupted and resumed: in a third of the sessions of
+	// the resumable APIs the store is given up (Discard, or Finalize) after `cut` puts and reopened
+	cut, cutHow := -1, ""
+	if d.Big == 0 && len(content.Blocks) >= 2 && d.Seed%3 == 0 && (d.API == "blockstore" || d.API == "blockstore-many" || d.API == "storage-rw") {
+		cut, cutHow = 1+int(uint64(d.Seed>>3)%uint64(len(content.Blocks)-1)), []string{"discard", "finalize"}[(d.Seed>>2)&1]
+		t.Cover("sessions-resumed-after-" + cutHow)
+	}
 	switch d.API {
 	case "blockstore", "blockstore-many":
 		p := filepath.Join(dir, "bs.car")
@@ -216,8 +223,24 @@ func runC05(t *mon.T, raw json.RawMessage) {
 			fail(err)
 			return
 		}
+		reopen := func() bool {
+			if cutHow == "discard" {
+				bs.Discard()
+			} else if err := bs.Finalize(); err != nil {
+				fail(err)
+				return false
+			}
+			if bs, err = blockstore.OpenReadWrite(p, roots, cfg.Opts()...); err != nil {
+				fail(err)
+				return false
+			}
+			return true
+		}
 		if d.API == "blockstore" {
-			for _, b := range content.Blocks {
+			for i, b := range content.Blocks {
+				if i == cut && !reopen() {
+					return
+				}
 				if err := bs.Put(bg, lab.ToBlock(b)); err != nil {
 					fail(err)
 					return
@@ -225,7 +248,17 @@ func runC05(t *mon.T, raw json.RawMessage) {
 			}
 		} else {
 			var l []blocks.Block
-			for _, b := range content.Blocks {
+			for i, b := range content.Blocks {
+				if i == cut {
+					if err := bs.PutMany(bg, l); err != nil {
+						fail(err)
+						return
+					}
+					l = nil
+					if !reopen() {
+						return
+					}
+				}
 				l = append(l, lab.ToBlock(b))
 			}
 			if err := bs.PutMany(bg, l); err != nil {
@@ -261,7 +294,19 @@ func runC05(t *mon.T, raw json.RawMessage) {
 			fail(err)
 			return
 		}
-		for _, b := range content.Blocks {
+		for i, b := range content.Blocks {
+			if i == cut {
+				if cutHow == "finalize" {
+					if err := w.Finalize(); err != nil {
+						fail(err)
+						return
+					}
+				}
+				if w, err = storage.OpenReadableWritable(mf, roots, cfg.Opts()...); err != nil {
+					fail(err)
+					return
+				}
+			}
 			if err := w.Put(bg, string(b.Cid), b.Data); err != nil {
 				fail(err)
 				return
@@ -450,7 +495,7 @@ func init() {
 		Assumptions: []string{"refcar parses containers and indexes; lab.Model decides which puts are stored"},
 		Gen:         genC05,
 		Run:         runC05,
-		MinCover: map[string]int{"api:blockstore": 20, "api:storage-writable": 20, "api:storage-rw": 20, "api:deferred": 20, "api:cli": 10, "cli:get-dag": 10, "cli:get-dag-of-a-raw-leaf": 5, "cli:filter": 10,
+		MinCover: map[string]int{"sessions-resumed-after-discard": 20, "sessions-resumed-after-finalize": 20, "api:blockstore": 20, "api:storage-writable": 20, "api:storage-rw": 20, "api:deferred": 20, "api:cli": 10, "cli:get-dag": 10, "cli:get-dag-of-a-raw-leaf": 5, "cli:filter": 10,
 			"v2-files-checked": 200, "verifycar-run": 50, "sessions-without-stored-blocks": 5, "big-sessions": 4, "deferred-over-existing-larger-file": 20},
 	})
 }
